@@ -331,6 +331,9 @@ def _trace_rv(body, rv, path, bb, idx, extra, seen):
             for nm, op in zip(names, rv["ops"]):
                 if head == nm or head == "%s.%s" % (variant, nm):
                     return trace_op(body, op, extra, seen, path[1:])
+            if isinstance(variant, str) and isinstance(head, str) and "." in head and head.split(".", 1)[0] != variant:
+                # `(x as Some).0` read where this definition made x a `None`: not an origin of the payload on any path
+                return []
             return [Origin("agg", (bb, idx), path, rv)]
         if path and kind == "tuple":
             try:
